@@ -150,4 +150,96 @@ AcceptLn(a, o) ==
         high == IF o.s = 0 THEN outer ELSE inner                      \* encloses e^(y + 2u)
     IN IF CmpScaled(Mag(a), a.e, low.lo, low.q) >= 0 /\ CmpScaled(Mag(a), a.e, high.hi, high.q) <= 0 THEN OK
        ELSE "log: more than two units in the last place away from the exact value"
+
+----------------------------------------------------------------------------
+(***************************************************************************)
+(* Inexact powers: a ** b = e^(b ln a), a > 0.                              *)
+(*   ln a, a = mag * 10^e = t * 2^j * 10^n with 1 <= t < 2:                  *)
+(*     ln t = 2 artanh z, z = (t - 1) / (t + 1) < 1/3, by its series in      *)
+(*     fixed point (scale B^K) with lower and upper sums; the tail after a   *)
+(*     term of at most one unit is below one unit (ratio z^2 < 1/9);         *)
+(*     ln 2 and ln 10 are constants of K limbs (checked by the self-test     *)
+(*     through ExpEncl: e^LN2lo <= 2 <= e^LN2hi, likewise for 10).           *)
+(*   The enclosure of b ln a is an interval of exact decimals; ExpEncl of   *)
+(*   its two ends encloses a ** b.                                          *)
+(***************************************************************************)
+LN2lo  == <<9471, 9696, 3621, 9339, 94, 680, 5412, 2552, 4360, 13, 755, 6568, 5817, 1214, 7232, 941, 9453, 559, 4718, 6931>>            \* floor(ln 2 * B^K)
+LN10lo == <<5248, 6773, 2609, 6757, 9009, 3327, 7603, 7729, 8628, 148, 6011, 4207, 8436, 4546, 7991, 8401, 456, 2994, 8509, 3025, 2>>   \* floor(ln 10 * B^K)
+LN2hi  == Add(LN2lo, <<1>>)
+LN10hi == Add(LN10lo, <<1>>)
+
+FloorK(p) == DropLimbs(p, K)                                          \* floor(p / B^K)
+DivSq(a, k) == IF a = <<>> THEN <<>> ELSE DivS(a, k).q
+
+\* pl, ph: enclosure of z^d (d odd) at scale B^K; wl, wh: of z^2; sl, sh: the partial sums of z^i / i
+RECURSIVE AtanhSeries(_, _, _, _, _, _, _)
+AtanhSeries(pl, ph, wl, wh, d, sl, sh) ==
+  IF Cmp(ph, <<1>>) <= 0 \/ d > 400 THEN [lo |-> sl, hi |-> Add(sh, <<3>>)]
+  ELSE LET npl == FloorK(Mul(pl, wl))
+           nph == Add(FloorK(Mul(ph, wh)), <<1>>)
+           nsl == Add(sl, DivSq(npl, d + 2))
+           nsh == Add(sh, Add(DivSq(nph, d + 2), <<1>>))
+       IN IF nsl = nsl /\ nsh = nsh THEN AtanhSeries(npl, nph, wl, wh, d + 2, nsl, nsh) ELSE [lo |-> <<>>, hi |-> <<>>]
+
+\* ln(mag * 10^e), mag # 0: the value is (-1)^neg * v with lo <= v * B^K <= hi
+LnEncl(mag, e) ==
+  LET d    == NumDigits(mag)
+      n    == d - 1 + e
+      p10  == Pow10(d - 1)
+      j    == IF Cmp(mag, MulS(p10, 2)) < 0 THEN 0 ELSE IF Cmp(mag, MulS(p10, 4)) < 0 THEN 1 ELSE IF Cmp(mag, MulS(p10, 8)) < 0 THEN 2 ELSE 3
+      base == MulS(p10, Pow2(j))
+      num  == Sub(mag, base)
+      den  == Add(mag, base)
+      zl   == IF num = <<>> THEN <<>> ELSE DivMod(ShiftL(num, K), den).q
+      zh   == IF num = <<>> THEN <<>> ELSE Add(zl, <<1>>)
+      s    == IF num = <<>> THEN [lo |-> <<>>, hi |-> <<>>]
+              ELSE AtanhSeries(zl, zh, FloorK(Mul(zl, zl)), Add(FloorK(Mul(zh, zh)), <<1>>), 1, zl, zh)
+      pml  == Add(MulS(s.lo, 2), MulS(LN2lo, j))
+      pmh  == Add(MulS(s.hi, 2), MulS(LN2hi, j))
+  IN IF n >= 0 THEN [neg |-> FALSE, lo |-> Add(pml, MulS(LN10lo, n)), hi |-> Add(pmh, MulS(LN10hi, n))]
+     ELSE [neg |-> TRUE, lo |-> Sub(MulS(LN10lo, 0 - n), pmh), hi |-> Sub(MulS(LN10hi, 0 - n), pml)]
+
+\* enclosure of |a| ** b for |a| # 1, a # 0, b # 0: [st = "in", lo, hi, q], or st = "over" / "under" when |b ln a| >= 20000
+PowEncl(a, b) ==
+  LET L    == LnEncl(Mag(a), a.e)
+      xneg == (b.s = 1) # L.neg
+      Xl   == Mul(Mag(b), L.lo)                                        \* |b ln a| in [Xl, Xh] * 10^xe
+      Xh   == Mul(Mag(b), L.hi)
+      xe   == b.e - 4 * K
+      xadj == NumDigits(Xl) - 1 + xe
+      big  == IF xadj >= 5 THEN TRUE ELSE IF xadj < 4 THEN FALSE ELSE Cmp(Xl, MulPow10(Small(20000), 0 - xe)) >= 0
+  IN IF big THEN [st |-> IF xneg THEN "under" ELSE "over"]
+     ELSE LET d    == IF Len(Xh) > K + 4 THEN Len(Xh) - (K + 4) ELSE 0     \* K + 4 limbs of the product are plenty: cut outwards
+              near == ExpEncl(xneg, DropLimbs(Xl, d), xe + 4 * d)
+              far  == ExpEncl(xneg, IF d = 0 THEN Xh ELSE Add(DropLimbs(Xh, d), <<1>>), xe + 4 * d)
+              low  == IF xneg THEN far ELSE near
+              high == IF xneg THEN near ELSE far
+              q    == IF low.q < high.q THEN low.q ELSE high.q
+          IN [st |-> "in", lo |-> ShiftL(low.lo, low.q - q), hi |-> ShiftL(high.hi, high.q - q), q |-> q]
+
+IsOne(o) == o.k = "num" /\ o.fin /\ o.c = <<1>> /\ o.e = 0
+AbsN(a) == [a EXCEPT !.s = 0]
+\* a ** b for an exponent that is not a small integer (those are AcceptPowInt's): within two units in the last place
+AcceptPow(a, b, o) ==
+  IF o.k = "num" /\ ~o.fin THEN "an infinite or NaN value was produced"
+  ELSE IF o.k \notin {"num", "null"} THEN "the result is neither a number nor null"
+  ELSE IF IsZ(b) THEN (IF IsZ(a) THEN Unspec ELSE IF IsOne(o) /\ o.s = 0 THEN OK ELSE "x ** 0 must be 1")
+  ELSE IF IsZ(a) THEN (IF b.s = 1 THEN ExpectNull(o, "zero to a negative power is undefined: null expected")
+                       ELSE IF o.k = "num" /\ IsZ(o) THEN OK ELSE "zero to a positive power must be zero")
+  ELSE IF a.s = 1 /\ ~IsInteger(b) THEN ExpectNull(o, "a negative number to a fractional power is undefined: null expected")
+  ELSE IF a.s = 1 /\ Adj(b) >= 9 THEN Unspec                          \* integer exponents of ten and more digits with a negative base
+  ELSE LET neg == a.s = 1 /\ Odd(b) IN
+    IF Compare(AbsN(a), OneN) = 0 THEN (IF IsOne(o) /\ (o.s = 1) = neg THEN OK ELSE "a power of 1 or -1 must be 1 or -1")
+    ELSE LET v == PowEncl(a, b) IN
+      IF v.st = "over" THEN ExpectNull(o, "the result lies outside the decimal128 range: null expected")
+      ELSE IF v.st = "under" THEN Unspec
+      ELSE LET al == AdjOf(v.lo, v.q)
+               ah == AdjOf(v.hi, v.q)
+           IN IF al > EMax THEN ExpectNull(o, "the result lies outside the decimal128 range: null expected")
+              ELSE IF ah > EMax \/ al < EMin THEN Unspec
+              ELSE IF o.k # "num" THEN "a finite result is representable but null was returned"
+              ELSE IF IsZ(o) THEN "zero returned for a non-zero result"
+              ELSE IF (o.s = 1) # neg THEN "wrong sign"
+              ELSE IF WithinUnits(v, o, ah - (P - 1), 2) THEN OK
+              ELSE "power: more than two units in the last place away from the exact value"
 =============================================================================
